@@ -143,6 +143,7 @@ type (
 		Vals   []Expr
 	}
 	EDeref struct{ X Expr }
+	ETypeLit struct{ TE TypeExpr } // a type written where an expression is expected: []T, map[K]V (arguments of elems/unbox/typeTag/empty)
 )
 
 type Binder struct {
@@ -184,6 +185,7 @@ func (e *EBinary) String() string { return "(" + e.X.String() + " " + e.Op + " "
 func (e *ESel) String() string    { return e.X.String() + "." + e.Name }
 func (e *EIndex) String() string  { return e.X.String() + "[" + e.I.String() + "]" }
 func (e *EDeref) String() string  { return "*" + e.X.String() }
+func (e *ETypeLit) String() string { return e.TE.String() }
 func (e *ESlice) String() string {
 	lo, hi := "", ""
 	if e.Lo != nil {
@@ -570,6 +572,10 @@ func (p *parser) primary() Expr {
 	t := p.next()
 	switch t.kind {
 	case tkIdent:
+		if t.s == "map" && p.isOp("[") {
+			p.p--
+			return &ETypeLit{p.typeExpr()}
+		}
 		switch t.s {
 		case "true":
 			return &EBool{true}
@@ -591,6 +597,10 @@ func (p *parser) primary() Expr {
 			e := p.expr()
 			p.expect(")")
 			return e
+		}
+		if t.s == "[" && p.isOp("]") {
+			p.p--
+			return &ETypeLit{p.typeExpr()}
 		}
 		if t.s == "#" { // #name : engine-provided ghost local (e.g. #visited, #index)
 			n := p.identName()
